@@ -609,6 +609,7 @@ class DirectiveModel:
         if res == "Err" and isinstance(r.fields.get("0"), I.Enum):
             res = "Err(%s)" % r.fields["0"].variant
         self.last_num_params = {m.fields.get("name"): m.fields.get("num_params") for m in ms}
+        self.last_ints = {m.fields.get("name"): [t_.fields["0"].fields.get("0") for t_ in m.fields["tokens"] if t_.fields["0"].variant == "LiteralInt"] for m in ms}
         return (res, [(m.fields["name"], m.fields["is_function"], [t_.fields["0"].variant for t_ in m.fields["tokens"]]) for m in ms],
                 [s.variant for s in ch.fields["0"]], eff)
 
@@ -645,6 +646,20 @@ def rule_redef_eval(chk, pc):
             # (which position a redefined macro takes in the list is not observable while names are unique)
             got = (got[0], sorted(got[1]), got[2], got[3])
             want = (want[0], sorted(want[1]), want[2], want[3])
+        if got == want and got[0] == "Ok":
+            # the replacement lists themselves (the tuples above only carry token kinds): a definition that took effect
+            # carries the numbers written on the directive, every other macro keeps its own
+            ints = lambda toks: [t_.fields["0"].fields.get("0") for t_ in toks if t_.fields["0"].variant == "LiteralInt"]
+            exp = {m.fields["name"]: ints(m.fields["tokens"]) for m in ms}
+            live = all(c_ == "Enabled" for c_ in chain)
+            target = [t_.fields["0"].fields["0"].fields["0"] for t_ in cmd if t_.fields["0"].variant == "Id"][1]
+            if live and name.startswith("define"):
+                exp[target] = ints(cmd)
+            elif live and name.startswith("undef"):
+                exp.pop(target, None)
+            if dm.last_ints != exp:
+                got = (got, "replacement lists %s" % sorted(dm.last_ints.items()))
+                want = (want, "replacement lists %s" % sorted(exp.items()))
         if name == "define-same-body-more-parameters" and got == want and dm.last_num_params.get("X") != 2:
             got = (got, "the macro takes %s parameter(s)" % dm.last_num_params.get("X"))
             want = (want, "the macro takes 2 parameter(s)")
